@@ -20,7 +20,9 @@ Plain == {"p2wpkh", "p2sh-p2wpkh", "witv1", "witv0bad", "p2sh19", "p2sh-witv1",
 \* fad2 / fad2r: <sigA> DROP K CHECKSIGVERIFY K CHECKSIG solved by (sigB, sigA) / (sigA, sigB): two checks in one
 \* script whose script codes differ because FindAndDelete removes the embedded signature only when IT is checked;
 \* codesep2: K CHECKSIGVERIFY CODESEPARATOR K CHECKSIG (script codes differ by the separator position)
-TwoCheck == {"fad2", "fad2r", "codesep2"}
+\* fad2p75 / fad2p76: fad2 with the embedded signature padded (lax DER) to exactly 75 / 76 bytes: the push-size boundary
+\* of the pattern FindAndDelete looks for (largest direct push / smallest OP_PUSHDATA1 push)
+TwoCheck == {"fad2", "fad2r", "codesep2", "fad2p75", "fad2p76"}
 Leaves == IF Tier = "quick" THEN {"true", "p2pk", "p2pkh", "multisig", "big", "ifnm"} \cup TwoCheck
           ELSE {"true", "false", "p2pk", "p2pku", "p2pkh", "multisig", "multisig2of3", "big", "big10001", "ifnm", "cltv"} \cup TwoCheck
 SigKinds == {"canon", "nop", "extra", "pd1", "badsig"}
